@@ -504,6 +504,8 @@ class Ctx:
         if k == 'bin':
             return self.mk_bin(rv.op, rv.a, rv.b)
         if k == 'un':
+            if rv.op == 'PtrMetadata':
+                return ('call', 'len', (self.expr_operand(rv.a),))
             return ('un', rv.op, self.expr_operand(rv.a))
         if k in ('ref', 'rawptr'):
             return self.expr_place(rv.place)
@@ -537,6 +539,8 @@ class Ctx:
             return ('bin', CMP_FNS[seg], self.expr_operand(args[0]), self.expr_operand(args[1]), 'other')
         if seg in ARITH_FNS and len(args) == 2 and ('ops::' in tr or 'ops::' in (c.path or '')):
             return ('bin', ARITH_FNS[seg], self.expr_operand(args[0]), self.expr_operand(args[1]), 'other')
+        if seg == 'len' and len(args) == 1 and not c.local:
+            return ('call', 'len', (self.expr_operand(args[0]),))
         if seg in ('duration_since', 'saturating_duration_since', 'checked_duration_since') and len(args) == 2:
             return ('bin', 'Sub', self.expr_operand(args[0]), self.expr_operand(args[1]), 'other')
         if seg == 'elapsed' and len(args) == 1:
@@ -1029,6 +1033,8 @@ class Guards:
         self._edge = {}
         self._guard = {}
         self.truncated = set()
+        self.atom_origin = {}
+        self._loops = None
         self._in_progress = set()
         self._back = self.cfg.back_edges()
 
@@ -1077,6 +1083,9 @@ class Guards:
                 if is_other:
                     r.append([cmp_atom('Ne', e, ('int', v), isint) for v, b in t.targets])
             r = dnf_simplify(r)
+            for c in r:
+                for a in c:
+                    self.atom_origin.setdefault(a, set()).add(p)
         self._edge[k] = r
         return r
 
@@ -1237,6 +1246,55 @@ class Guards:
         self._guard[b] = g
         return g
 
+    # ---- stability: an atom that mentions a multi-definition local is only usable at block b if the local is not
+    #      redefined between the branch that established the atom and b
+    def loops(self):
+        if self._loops is None:
+            ls = []
+            for (n, h) in self._back:
+                body = {h, n}
+                st = [n]
+                while st:
+                    x = st.pop()
+                    if x == h:
+                        continue
+                    for p2 in self.cfg.pred[x]:
+                        if p2 not in body:
+                            body.add(p2)
+                            st.append(p2)
+                ls.append(body)
+            self._loops = ls
+        return self._loops
+
+    def atom_stable_at(self, a, b):
+        import re
+        locs = set()
+        for k2 in _atom_keys(a):
+            for m in re.finditer(r'#(\d+)', k2):
+                locs.add(int(m.group(1)))
+        if not locs:
+            return True
+        origins = self.atom_origin.get(a)
+        if not origins:
+            return False
+        for L in locs:
+            dblocks = {d.bb for _, d in self.ctx.defs(L)}
+            for p in origins:
+                fw = self._forward_dag(p)
+                for D in dblocks:
+                    if D not in fw:
+                        continue
+                    if D == b or b in self._forward_dag(D):
+                        return False
+                    for body in self.loops():
+                        if D in body and b in body and p not in body:
+                            return False
+        return True
+
+    def stable_guard(self, b):
+        g = self.guard(b)
+        return dnf_simplify([[a for a in c if self.atom_stable_at(a, b)] for c in g])
+
     def dominating_atoms(self, b):
         """atoms that hold on every path to b (intersection over disjuncts)"""
         g = self.guard(b)
@@ -1294,3 +1352,14 @@ def subst_var(e, local, val):
     if t in ('min', 'max'):
         return (t, tuple(subst_var(a, local, val) for a in e[1]))
     return e
+
+
+def _atom_keys(a):
+    t = a[0]
+    if t in ('lin', 'ne'):
+        return [k2 for k2, _ in a[1]]
+    if t == 'relz':
+        return [k2 for k2, _ in a[2]]
+    if t in ('bool', 'is'):
+        return [a[1]]
+    return []
